@@ -263,6 +263,7 @@ type job struct {
 	MaxKeep   int      `json:"max_keep"`
 	Tree      string   `json:"tree"`
 	RaceLog   string   `json:"race_log"`
+	Cover     string   `json:"-"`
 }
 
 type violationReport struct {
@@ -312,6 +313,9 @@ func runWorker(bin string, j job, gomaxprocs int, timeout time.Duration) (*worke
 	os.Remove(j.Out)
 	cmd := exec.Command(bin, "-test.run", "^TestWorker$", "-test.timeout", "0")
 	cmd.Env = append(os.Environ(), "VERIF_JOB="+jp, "GOMAXPROCS="+strconv.Itoa(gomaxprocs), "GODEBUG=randseednop=0")
+	if j.Cover != "" {
+		cmd.Env = append(cmd.Env, "VERIF_COVER="+j.Cover)
+	}
 	if j.RaceLog != "" {
 		cmd.Env = append(cmd.Env, "GORACE=log_path="+j.RaceLog+" halt_on_error=0 history_size=3")
 	}
@@ -462,6 +466,10 @@ func check(id, tier string) int {
 				j := job{Mode: "explore", Prop: id, Families: pc.Families, SeedBase: seedBase, Worker: w, Workers: workers, Start: startIdx,
 					Count: 1 << 30, BudgetS: left, Known: knownPath, Out: filepath.Join(jobsDir, fmt.Sprintf("w%d-%d.json", w, part)), ReplayDir: replayDir, MaxKeep: 2, Tree: hash}
 				wbin, procs := bin, 1
+				if w == workers-1 && os.Getenv("VERIF_COVER") == "" {
+					// one worker also records which instrumented statements its runs reach (evidence: statement_reach)
+					j.Cover = filepath.Join(jobsDir, "cover")
+				}
 				if race && w < raceWorkers {
 					// the last word in concurrency: these workers run the -race binary in co-release mode
 					j.Families = pc.RaceFamilies
@@ -511,6 +519,7 @@ func check(id, tier string) int {
 			lines = append(lines, fmt.Sprintf("KNOWN-FINDING: property=%s %s [%s; seen %d times in exploration, e.g. %s]", id, f.What, f.ID, total.KnownHits[f.ID], total.KnownExample[f.ID]))
 		}
 	}
+	reach = statementReach(filepath.Join(jobsDir, "cover"), filepath.Join(dir, "rw", "sites.txt"))
 	wall := time.Since(start).Seconds()
 	writeEvidence(id, tier, seed, pc, total, nviol, wall, buildS, workers, hash, knownStill)
 	for _, l := range lines {
@@ -518,6 +527,50 @@ func check(id, tier string) int {
 	}
 	fmt.Printf("%s %s: %d runs in %.1fs (build %.1fs), %d distinct fingerprints, %d violations, known findings hit: %v\n", id, tier, total.Runs, wall, buildS, len(total.Fingerprints), nviol, total.KnownHits)
 	return exit
+}
+
+var reach map[string]any
+
+// statementReach merges the statement-reach files of the recording worker.
+func statementReach(dir, sitesFile string) map[string]any {
+	b, err := os.ReadFile(sitesFile)
+	if err != nil {
+		return nil
+	}
+	sites := strings.Fields(string(b))
+	hit := map[string]bool{}
+	files, _ := filepath.Glob(filepath.Join(dir, "*.json"))
+	for _, f := range files {
+		var m map[string]int64
+		if fb, err := os.ReadFile(f); err == nil && json.Unmarshal(fb, &m) == nil {
+			for k, v := range m {
+				if v > 0 {
+					hit[k] = true
+				}
+			}
+		}
+	}
+	if len(files) == 0 {
+		return nil
+	}
+	per := map[string][2]int{}
+	n := 0
+	for _, s := range sites {
+		fn := s[:strings.LastIndex(s, ":")]
+		c := per[fn]
+		c[1]++
+		if hit[s] {
+			c[0]++
+			n++
+		}
+		per[fn] = c
+	}
+	byFile := map[string]string{}
+	for fn, c := range per {
+		byFile[fn] = fmt.Sprintf("%d/%d", c[0], c[1])
+	}
+	return map[string]any{"instrumented_statements": len(sites), "reached_by_one_worker": n, "by_file": byFile,
+		"note": "statements of server/rib/client (simrt.Point sites = original source lines) executed inside simulated runs of ONE of the workers; unreached statements are listed by tools/cover_report.py"}
 }
 
 func trunc(s string, n int) string {
@@ -656,6 +709,7 @@ func writeEvidence(id, tier string, seed uint64, pc propCfg, t *workerOut, nviol
 			"stub":  []string{"grpc transport -> simnet", "goroutine scheduler -> simrt controller", "wall clock -> testing/synctest fake clock", "map iteration order / select choice -> tapes"},
 			"notes": "device/ and cmd/ are not executed",
 		},
+		"statement_reach": reach,
 		"tree_hash":  hash,
 		"workers":    workers,
 		"build_s":    buildS,
